@@ -10,7 +10,7 @@ CONSTANTS
   ClearOnFail = TRUE
   FreshDecode = FALSE
   PutPanics = FALSE
-  AttemptTimeouts = FALSE
+  AttemptTimeouts = TRUE
   CanonDecode = FALSE
   QuietCtxOnly = FALSE
 INVARIANTS
